@@ -310,7 +310,7 @@ def trackReplay (s : St) (p : Pos) : St :=
 def deliverAt (s : St) (p : Pos) (o : Outcome) : HRes :=
   match o with
   | .ok v => .deliver (.ok v) (trackReplay (emit s (.deliver p (.ok v))) p)
-  | .err e => .deliver (.err e) (emit s (.deliver p (.err e)))       -- track_replay is skipped when the call raises
+  | .err e => .deliver (.err e) (trackReplay (emit s (.deliver p (.err e))) p)   -- `finally: track_replay` (context.py)
 
 /-- "1.2.3" -/
 def dotted (p : Pos) : String := String.intercalate "." (p.map toString)
@@ -565,8 +565,8 @@ def finalTbl (e : End) (s : St) (keep : Nat) : Tbl :=
   | .crashed | .ckptFailed => applyPrefix s.syncTbl s.imm s.pending keep
   | _ => s.tbl
 
-/-- Initial state of an invocation on table `t`: REPLAY iff the history holds any operation
-(single page; execution.py:295-304). -/
+/-- Initial state of an invocation on table `t`: REPLAY iff the complete history (all pages) holds
+any operation besides EXECUTION (execution.py:295-318). -/
 def initSt (t : Tbl) (budget : Nat) (failAt : Option Nat) (imm : Pos → Backend.Immediate) : St :=
   { tbl := t, syncTbl := t, budget := budget, failAt := failAt, imm := imm, replaying := !t.isEmpty }
 
